@@ -25,6 +25,13 @@ StreamClause(c) == CASE c = "deflate" -> "C15:deflate-not-raw-rfc1951-denoting-i
                      [] c = "snappy" -> "C15:snappy-block-not-denoting-input"
                      [] OTHER -> "C15:null-codec-not-identity"
 
+(* name of the coverage-layer mismatch when the library accepted bytes that do not denote its output *)
+FormatDrift(s) ==
+  IF s.codec = "deflate" /\ s.stored.full /\ s.res.out.full
+     /\ (LET r == InflateFull(s.stored.bytes) IN r.ok /\ r.out = s.res.out.bytes /\ r.bytes < s.stored.len)
+  THEN "deflate-bytes-after-the-final-block-ignored"
+  ELSE "accepts-what-the-format-does-not-denote"
+
 AllStored(y) == LET r == InflateFull(y) IN r.ok /\ \A i \in 1..Len(r.types) : r.types[i] = 0
 
 (* ---- rt: Compress(x, c, level) then Decompress, reference decompressor reading the block ---- *)
@@ -47,13 +54,13 @@ JudgeRt(e) ==
       fail == If(e.c_ok, "C15:compress-failed") \cup If(~(e.c_panic \/ e.d_panic), "C15:panic")
               \cup (IF ~e.c_ok THEN {} ELSE
                     If(rt, IF e.d_ok THEN "C15:roundtrip-differs" ELSE "C15:roundtrip-decompress-failed")
-                    \cup If(st, StreamClause(c))
+                    \cup If(st /\ NullInv(s1), StreamClause(c))
                     \cup If(tr, "C15:snappy-trailer-not-BE-CRC32-of-input")
                     \cup If(ReferenceInv(s1), IF e.ref_ok THEN "C15:reference-decoder-reads-other-data"
                                                           ELSE "C15:reference-decoder-rejects-library-stream")
                     \cup If(CapInv(s2), "C15:output-larger-than-limit")
                     \cup If((rt /\ tr) \/ ChecksumInv(s2), "C15:snappy-checksum-not-verified"))
-      drift == If(~e.c_ok \/ (rt /\ st /\ tr) \/ AgreesWithFormat(s2), "accepts-what-the-format-does-not-denote")
+      drift == If(~e.c_ok \/ (rt /\ st /\ tr) \/ AgreesWithFormat(s2), FormatDrift(s2))
                \cup If(~(c = "deflate" /\ e.level = 0 /\ e.full /\ e.c_ok) \/ AllStored(e.comp), "deflate-level-0-not-stored-blocks")
   IN [fail |-> tool \cup fail, drift |-> drift]
 
@@ -89,7 +96,7 @@ JudgeCorrupt(e) ==
               \cup If(DamagedTrailerInv(s3), "C15:wrong-snappy-checksum-accepted")
               \cup If(ChecksumInv(s3), "C15:snappy-checksum-not-verified")
               \cup If(CapInv(s3), "C15:output-larger-than-limit")
-      drift == If(AgreesWithFormat(s3), "accepts-what-the-format-does-not-denote")
+      drift == If(AgreesWithFormat(s3), FormatDrift(s3))
                \* bzip2 and xz streams carry CRCs (raw deflate and the crate's zstandard frames do not)
                \cup If(c \notin {"bzip2", "xz"} \/ ~e.d_ok \/ e.out = e.input, "checksummed-stream-damaged-yet-decoded-to-other-data")
   IN \* a cut or flip position beyond the compressed length does not apply: nothing to judge
@@ -105,8 +112,9 @@ JudgeHostile(e) ==
       fail == If(~e.d_panic, "C15:panic")
               \cup If(CapInv(s2), "C15:output-larger-than-limit")
               \cup If(ChecksumInv(s2), "C15:snappy-checksum-not-verified")
-      drift == If(AgreesWithFormat(s2), "accepts-what-the-format-does-not-denote")
-               \cup If(~(e.d_ok /\ c # "null" /\ e.denotes_len > e.limit), "over-limit-stream-accepted-with-short-output")
+      drift == If(AgreesWithFormat(s2), FormatDrift(s2))
+               \cup If(~(e.d_ok /\ c # "null" /\ e.denotes_len > e.limit /\ e.out_len <= e.limit),
+                       "over-limit-stream-accepted-with-short-output")
   IN [fail |-> tool \cup fail, drift |-> drift]
 
 (* ---- file: Writer with codec + level -> container file -> splitter, Reader ---- *)
